@@ -29,7 +29,7 @@ def gen_cases(ck):
     n = 30 if ck.tier == "quick" else 200
     for i in range(n):
         cases.append({"type": "history", "seed": int(ck.rng.integers(1 << 30)), "tissue": ["random", "jitter", "hex"][int(ck.rng.integers(3))],
-                      "sites": int(ck.rng.integers(12, 22)), "subset": None, "min_ridge": 0.02, "mobius": bool(ck.rng.integers(2)),
+                      "sites": int(ck.rng.integers(12, 22)), "subset": [None, 0.35, 0.6, 0.45][i % 4], "min_ridge": 0.02, "mobius": bool(ck.rng.integers(2)),
                       "kmin": 1, "kmax": 4, "angle": float(ck.rng.uniform(0, 6.28)), "scale": float(10.0 ** ck.rng.uniform(-1, 1)),
                       "nframes": int(ck.rng.integers(2, 4)), "field": "random", "bound_factor": 0.3, "renumber": False,
                       "times": "unequal", "nops": int(ck.rng.integers(4, 13)), "fix_stress": bool(ck.rng.integers(8) == 0)})
@@ -196,6 +196,28 @@ def run_case(ck, case, reqs, pending):
             if obs["storeP"] is None or any(c is None for c in obs["cellP"]) or \
                     not close([obs["storeP"][pm.mapping_order[cid]] for cid in fr.cells], obs["cellP"]):
                 ck.fail("each cell carries its own pressure and the per-frame store holds frame t's pressures under key t", f"frame {t}", case, signature=sig)
+            else:
+                # "its own": cells without an equation carry 0, the others the zero-sum least-squares solution of the pressure
+                # equations in force, recomputed here from the assembled system (column j of the reduced system = j-th cell that has one)
+                L = np.array(pm.lhs_matrix, dtype=float); rhs = np.array(pm.rhs_matrix, dtype=float).flatten()
+                removed = {int(x) for x in pm.removed_columns}
+                cp = obs["cellP"]
+                keptc = [j for j in range(len(cp)) if j not in removed]
+                if any(cp[j] != 0.0 for j in removed):
+                    ck.fail("each cell carries its own pressure (zero for a cell without an equation)", f"frame {t}: {[cp[j] for j in sorted(removed)][:4]}", case, signature=sig)
+                elif L.ndim == 2 and L.shape[1] == len(keptc) and L.shape[1] > 1 and L.shape[0] > 0:
+                    Z = np.linalg.svd(np.ones((1, L.shape[1])))[2][1:].T
+                    yy, *_ = np.linalg.lstsq(L @ Z, rhs, rcond=None)
+                    refp = Z @ yy
+                    sv = np.linalg.svd(L @ Z, compute_uv=False)
+                    pk = np.array([cp[j] for j in keptc])
+                    scale = float(np.max(np.abs(rhs))) + 1e-3
+                    if sv[-1] > 1e-6 * sv[0] and float(np.max(np.abs(pk - refp))) > 1e-6 * scale / sv[-1]:
+                        ck.fail("each cell carries its own pressure (the solution component of its own column)",
+                                f"frame {t}: max deviation {float(np.max(np.abs(pk - refp))):.3g} from an independent solve of the assembled pressure system; "
+                                f"{len(removed)} cells without equation", case, signature=sig)
+                    ck.count("own_pressure_checked_against_independent_solve")
+                    ck.count("cells_without_equation", len(removed))
         # ---------------- S (b): fresh objects with the minimal chain
         if solves:
             j = solves[-1]
